@@ -161,6 +161,31 @@ def _main_loop(ck, prog):
            "idx_old": Rat.atom("b_old"), "kold": Rat.atom("k_old"), "nstep": Rat.atom("nstep"), "niter": Rat.atom("niter"),
            "seqcount": Rat.atom("seqcount"), "flatcount": Rat.atom("flatcount"), "reject": Rat.atom("reject"), "rand": ObjV("Random"),
            "hlog": "hlog", "glog": "glog", "seqlog": "seqlog", "hblog": "hblog", "startTime": Rat.atom("t0"), "nseq": None, "idx_new": Rat.const(0)}
+    # locals introduced before the loop that the template does not name (a hoisted threshold, a bundle of log paths, ...): bound by evaluating
+    # their own statement in the start environment; one that cannot be evaluated stays unbound and the iteration answers undecided as before
+    for st in pre:
+        if isinstance(st, ast.Assign) and len(st.targets) == 1 and isinstance(st.targets[0], ast.Name) and st.targets[0].id not in env:
+            nm_ = st.targets[0].id
+            # ... provided that statement is all that happens to the name before the loop: bound once, never edited in place, never handed to a call
+            touched = 0
+            for q in pre:
+                for n in ast.walk(q):
+                    if isinstance(n, ast.Name) and n.id == nm_ and isinstance(n.ctx, (ast.Store, ast.Del)):
+                        touched += 1
+                    elif isinstance(n, ast.Subscript) and isinstance(n.value, ast.Name) and n.value.id == nm_ and isinstance(n.ctx, (ast.Store, ast.Del)):
+                        touched += 2
+                    elif isinstance(n, ast.Call) and ((isinstance(n.func, ast.Attribute) and isinstance(n.func.value, ast.Name) and n.func.value.id == nm_)
+                                                      or any(isinstance(a, ast.Name) and a.id == nm_ for a in list(n.args) + [k.value for k in n.keywords])) \
+                            and isinstance(st.value, (ast.Dict, ast.List, ast.Set, ast.Call, ast.ListComp, ast.DictComp, ast.SetComp)):
+                        touched += 2
+            if touched != 1:
+                continue
+            try:
+                got = ev.exec_block([st], [Path([], "live", None, dict(env))], fr)
+            except Undecided:
+                continue
+            if len(got) == 1 and got[0].kind == "live" and not got[0].conds and st.targets[0].id in got[0].env:
+                env[st.targets[0].id] = got[0].env[st.targets[0].id]
     paths = ev.exec_block(loop.body, [Path([], "live", None, env)], fr)
     ck.count("main-loop paths", len(paths))
     ck.floor("main-loop paths", len(paths), 8)
@@ -432,6 +457,84 @@ def _outputs(ck, prog):
         ck.shape(k.endswith(".kappa()") or k in ("kold", "knew"), "seqlog: kappa operand form", f.loc(n))
         ok = k == sq + ".kappa()" or (k == "kold" and sq == "oseq")
         ck.ob("TEMPLATE-output", construct, ok, expected="seqlog line = (X.kappa(), X) for one object X", found=[k, sq], slot="seqlog", where=f.loc(n))
+        if ok and k == "kold":
+            # a cached kappa stands for oseq.kappa() only while the two are re-bound together: INV-kold, a typestate walk over the whole function
+            _kold_in_step(ck, prog, f, n, construct)
+
+
+def _kold_in_step(ck, prog, f, write, construct):
+    """state: (version of the object each tracked name holds, version whose kappa each number name holds).  `V = <expr>` gives V a new version
+    (`V = W` copies W's); `K = W.kappa()` makes K the kappa of W's version; `K = K2` copies.  At the seqlog write, kold must be the kappa of the
+    version oseq holds.  Branch tests are not interpreted, so a mismatch on SOME path through an assignment may be an infeasible pairing of
+    branches: only an oseq version that reaches the write mismatched on EVERY path through it is reported; mixed answers are undecided."""
+    from lcsa import flow
+    at_write = []
+    # only the names whose values can reach oseq / kold are followed
+    rel = {"oseq", "kold"}
+    grew = True
+    while grew:
+        grew = False
+        for a in ast.walk(f.node):
+            if isinstance(a, ast.Assign) and len(a.targets) == 1:
+                tg = a.targets[0].elts if isinstance(a.targets[0], (ast.Tuple, ast.List)) else [a.targets[0]]
+                if any(isinstance(t, ast.Name) and t.id in rel for t in tg):
+                    for v in ([a.value] + (list(a.value.elts) if isinstance(a.value, (ast.Tuple, ast.List)) else [])):
+                        src = v.func.value if isinstance(v, ast.Call) and isinstance(v.func, ast.Attribute) and v.func.attr == "kappa" else v
+                        if isinstance(src, ast.Name) and src.id not in rel:
+                            rel.add(src.id)
+                            grew = True
+
+    def step(node, st):
+        if node is write or any(x is write for x in ast.walk(node)):
+            at_write.append(st)
+        if not isinstance(node, ast.Assign) or len(node.targets) != 1:
+            if isinstance(node, (ast.AugAssign,)) and isinstance(node.target, ast.Name) and node.target.id in ("kold", "knew"):
+                d = dict(st)
+                d["k:" + node.target.id] = "aug@%d" % node.lineno
+                return frozenset(d.items())
+            return st
+        d = dict(st)
+        tgts = node.targets[0].elts if isinstance(node.targets[0], (ast.Tuple, ast.List)) else [node.targets[0]]
+        vals = node.value.elts if isinstance(node.targets[0], (ast.Tuple, ast.List)) and isinstance(node.value, (ast.Tuple, ast.List)) and len(node.value.elts) == len(tgts) else \
+            ([node.value] if len(tgts) == 1 else [None] * len(tgts))
+        upd = {}
+        for t, v in zip(tgts, vals):
+            if not isinstance(t, ast.Name) or t.id not in rel:
+                continue
+            if isinstance(v, ast.Call) and isinstance(v.func, ast.Attribute) and v.func.attr == "kappa" and isinstance(v.func.value, ast.Name) and not v.args:
+                upd["k:" + t.id] = d.get("o:" + v.func.value.id, v.func.value.id + "@entry")
+                upd["o:" + t.id] = None
+            elif isinstance(v, ast.Name):
+                upd["k:" + t.id] = d.get("k:" + v.id)
+                upd["o:" + t.id] = d.get("o:" + v.id, v.id + "@entry")
+            else:
+                upd["o:" + t.id] = "%s@%d" % (t.id, node.lineno)
+                upd["k:" + t.id] = "num@%d" % node.lineno
+        for kk, vv in upd.items():
+            if vv is None:
+                d.pop(kk, None)
+            else:
+                d[kk] = vv
+        return frozenset(d.items())
+    try:
+        flow.run(f.body(), frozenset(), step, max_states=256)
+    except OverflowError:
+        raise Undecided("run_normal_WL: too many (object, cached kappa) pairings to follow", f.loc(write))
+    ck.shape(bool(at_write), "run_normal_WL: the seqlog write is reached by the typestate walk", f.loc(write))
+    by_ver = {}
+    for st in at_write:
+        d = dict(st)
+        ver = d.get("o:oseq", "oseq@entry")
+        by_ver.setdefault(ver, set()).add(d.get("k:kold") == ver)
+    for ver, answers in sorted(by_ver.items()):
+        if answers == {False}:
+            ck.ob("INV-kold", construct, False, expected="the cached kold written to seqlog is the kappa of the object oseq holds", slot="kold:" + ver.split("@")[0] + "@" + str(len(by_ver)),
+                  found={"oseq bound at": ver, "kold": "never re-computed for that object on any path to the seqlog write"}, where=f.loc(write),
+                  note="the logged line pairs one sequence with another sequence's kappa")
+        elif answers == {True}:
+            ck.ob("INV-kold", construct, True, expected="the cached kold written to seqlog is the kappa of the object oseq holds", found="in step", slot="kold:" + ver, where=f.loc(write))
+        else:
+            raise Undecided("run_normal_WL: kold and oseq are re-bound under separate tests (oseq bound at %s): lcsa does not correlate them" % ver, f.loc(write))
 
 
 def _logs_fresh(ck, prog):
